@@ -27,11 +27,13 @@ FLOORS = {
     "quick": {"evaluations": 4000, "distinct": 500,
               "counters": {"entry_compares": 4000, "asyncified_compares": 500,
                            "cls_Native": 100, "cls_Sandboxed": 100, "cls_Immutable": 100,
-                           "async_filter_programs": 100}},
+                           "async_filter_programs": 100, "local_autoescape_programs": 100,
+                           "quirky_object_compares": 100}},
     "thorough": {"evaluations": 80000, "distinct": 8000,
                  "counters": {"entry_compares": 80000, "asyncified_compares": 10000,
                               "cls_Native": 2000, "cls_Sandboxed": 2000, "cls_Immutable": 2000,
-                              "async_filter_programs": 2000}},
+                              "async_filter_programs": 2000, "local_autoescape_programs": 2000,
+                              "quirky_object_compares": 100}},
 }
 
 
@@ -158,16 +160,100 @@ def check_case(ctx, case, clsname):
     ctx.dist([clsname, corpus.shape(case)])
 
 
+class DotDict(dict):
+    """The common recipe: unknown attributes answer None instead of raising."""
+    __getattr__ = dict.get
+
+
+class Chatty:
+    """Answers every attribute (also protocol probes) with another Chatty / a value."""
+
+    def __init__(self, depth=0):
+        self._d = depth
+
+    def __getattr__(self, name):
+        if name.startswith("__") and name.endswith("__") and name not in ("__html__",):
+            if name in ("__await__", "__aiter__", "__anext__"):
+                return None if self._d % 2 else 0   # present but meaningless
+            raise AttributeError(name)
+        return Chatty(self._d + 1) if self._d < 2 else f"leaf-{name}"
+
+    def __str__(self):
+        return f"chatty{self._d}"
+
+    def method(self, x=1):
+        return DotDict(r=x, inner=DotDict(z=x + 1))
+
+
+QUIRKY_TEMPLATES = [
+    "{{ dd.inner.a }}|{{ dd['inner']['a'] }}|{{ dd.nope }}|{{ dd.inner }}",
+    "{% for k in dd.inner %}{{ k }}={{ dd.inner[k] }};{% endfor %}{{ dd.inner|length }}",
+    "{{ ch.x.y }}|{{ ch.x }}|{{ ch.method(3).r }}|{{ ch.method().inner.z }}",
+    "{% set v = dd.inner %}{{ v.a + 1 }}{% if dd.flag %}T{% else %}F{% endif %}{{ dd.inner is mapping }}",
+    "{% macro m(o) %}{{ o.a }}{% endmacro %}{{ m(dd.inner) }}{{ [dd.inner, dd]|length }}{{ dd.inner|string }}",
+    "{{ ch.x.y.z }}|{{ ch|string }}|{% with c = ch.x %}{{ c.q }}{% endwith %}",
+]
+
+
+def check_quirky(ctx):
+    """Data objects whose __getattr__ answers unknown names: async mode must treat them as
+    plain values exactly like sync mode does."""
+    for clsname, cls in env_classes().items():
+        if clsname == "Native":
+            continue
+        for src in QUIRKY_TEMPLATES:
+            mk = lambda: {"dd": DotDict(inner=DotDict(a=1, b=2), flag=0), "ch": Chatty()}
+            senv, aenv = cls(), cls(enable_async=True)
+            a = util.capture(lambda: senv.from_string(src).render(mk()))
+            for en, f in (("render", lambda: aenv.from_string(src).render(mk())),
+                          ("render_async", lambda: util.run_async(aenv.from_string(src).render_async(mk())))):
+                b = util.capture(f)
+                ctx.ev()
+                ctx.count("quirky_object_compares")
+                if not same(a, b, False):
+                    ctx.violation(f"parity-quirky-getattr:{clsname}:{en}",
+                                  f"sync {a!r} vs async {b!r} for {src!r} with data objects whose __getattr__ answers "
+                                  f"unknown names", {"quirky": src, "cls": clsname})
+
+
+def corpus_unwrap(body):
+    """Undo a previous localize() wrap (used to re-wrap expression programs with a constant flag)."""
+    out = []
+    for st in body:
+        if st[0] == "autoescape":
+            out.extend(st[2])
+        else:
+            out.append(st)
+    return out
+
+
 def run(ctx):
     rng = ctx.rng("c09")
     n = 1200 if ctx.tier == "quick" else 30000
     names = list(env_classes())
+    if ctx.shard % 4 == 0:
+        check_quirky(ctx)
     i = 0
     while ctx.more(i, n, floor=60):
         case = corpus.gen_case(rng, kinds=("expr", "stmt", "inherit", "incimp", "loop", "afilter", "afilter"))
         clsname = names[i % len(names)]
         if case["kind"] == "afilter":
             ctx.count("async_filter_programs")
+        if case["kind"] in ("stmt", "expr", "loop", "inherit") and i % 3 == 1:
+            # escaping switched on locally (environment autoescape stays off), data with markup
+            from vt.checks import c16
+
+            case = c16.heat(case, rng)
+            flag = ["name", "aeflag"] if i % 2 else ["const", True]
+            case["asts"] = {n: c16.localize(b, flag) for n, b in case["asts"].items()}
+            if "$expr" not in case["data"]:
+                case["data"]["aeflag"] = True
+            else:
+                case["asts"] = {n: [["set", "aeflag", ["const", True]]] + b if n == case["main"] else b
+                                for n, b in case["asts"].items()} if False else case["asts"]
+                flag = ["const", True]
+                case["asts"] = {n: c16.localize(corpus_unwrap(b), flag) for n, b in case["asts"].items()}
+            ctx.count("local_autoescape_programs")
         if clsname == "Native" and case["kind"] in ("incimp",):
             clsname = "Environment"   # native module/str concat of includes is C34 territory
         check_case(ctx, case, clsname)
@@ -177,4 +263,6 @@ def run(ctx):
 
 
 def replay(ctx, case):
+    if "quirky" in case:
+        return check_quirky(ctx)
     check_case(ctx, case["case"], case["cls"])
